@@ -479,7 +479,7 @@ func flagsGeneric(level, d string, dec func(level, vec string, nilRecv bool) str
 	encL := strings.SplitN(nth(m["enc"], L), "|", 2)[0]
 	rt := "0"
 	re := dec(level, unhx(encL), false)
-	if strings.HasPrefix(re, "r=1 e=- ") && dropKey(strings.TrimPrefix(re, "r=1 e=- "), "n") == dropKey(d, "n") {
+	if strings.HasPrefix(re, "r=1 e=- ") && dropKey(dropKey(strings.TrimPrefix(re, "r=1 e=- "), "n"), "q2") == dropKey(d, "n") {
 		rt = "1"
 	}
 	pv := ""
